@@ -420,6 +420,8 @@ def run_witnesses(ctx: Ctx):
         ("u0", "u_probability", 0.0, None),
         ("weight1", "tf_adjustment_weight", 1.0, {"tf_adjustment_column": "first_name"}),
         ("weight_half", "tf_adjustment_weight", 0.5, {"tf_adjustment_column": "first_name"}),
+        ("weight_095", "tf_adjustment_weight", 0.95, {"tf_adjustment_column": "first_name"}),
+        ("weight_099", "tf_adjustment_weight", 0.99, {"tf_adjustment_column": "first_name"}),
         ("minu", "tf_minimum_u_value", 0.001, {"tf_adjustment_column": "first_name"}),
         ("m1", "m_probability", 1.0, None),
         ("u1", "u_probability", 1.0, None),
@@ -782,7 +784,8 @@ def gen_comparison(rng, col, backend_portable, flags, as_dict_route):
                 tgt.setdefault("u_probability", 0.1875)
         if kind == "dict_tf":
             exact["tf_adjustment_column"] = col
-            w = rng.choice([1.0, 0.5, 0.25] + ([0, 0.0] if flags.get("weight0") and flags.get("weight0f") else []))
+            w = rng.choice([1.0, 0.5, 0.25, 0.75, 0.95, 0.99, round(rng.uniform(0.01, 0.999), 3)]
+                           + ([0, 0.0] if flags.get("weight0") and flags.get("weight0f") else []))
             if w != 1.0 or rng.random() < 0.5:
                 exact["tf_adjustment_weight"] = w
             if rng.random() < 0.4:
@@ -840,9 +843,9 @@ def gen_model(rng, flags, backend, portable):
         elif r < 0.6:
             brs.append(f"l.{c} = r.{c}")
         elif r < 0.8 and backend == "duckdb" and not portable:
-            brs.append(block_on(c, salting_partitions=rng.choice([2, 3])))
+            brs.append(block_on(c, salting_partitions=rng.choice([2, 3, 4, 7])))
         elif r < 0.9 and backend == "duckdb" and not portable:
-            brs.append({"blocking_rule": f"l.{c} = r.{c} and l.age = r.age", "salting_partitions": 2})
+            brs.append({"blocking_rule": f"l.{c} = r.{c} and l.age = r.age", "salting_partitions": rng.choice([2, 3, 5])})
         else:
             brs.append(block_on(c, "age"))
     if exploding:
@@ -864,7 +867,7 @@ def gen_model(rng, flags, backend, portable):
         if not any(m["kind"] in ("exact_tf", "dict_tf", "custom") for m in metas):
             opts["term_frequency_adjustment_column_prefix"] = "t_"
     if rng.random() < 0.3:
-        opts.update({"em_convergence": 0.01, "max_iterations": rng.choice([3, 10])})
+        opts.update({"em_convergence": rng.choice([0.01, 0.001, 0.05]), "max_iterations": rng.randint(1, 30)})
     if uid != "unique_id":
         opts["unique_id_column_name"] = uid
     sc = SettingsCreator(link_type=link_type, comparisons=comps, blocking_rules_to_generate_predictions=brs, **opts)
@@ -1089,6 +1092,10 @@ def correspondence(ctx: Ctx, pipelines, flags):
                 {"model_mismatch": m["kind"]}, found_input=True)
     elif not coq_ok:
         ctx.obligation("correspondence: Gallina model evaluated on real records", False, "pipelines missing")
+    else:
+        ctx.obligation("correspondence: Gallina model evaluated on real records", False, "no record reached the Coq evaluation")
+        ctx.violation("C09: no real record was evaluated against the Gallina model in this run (every model was skipped)",
+                      {"broken": "C09_x evaluation: zero cases"}, {"coq_cases": 0}, found_input=False)
 
 
 VCOUNT: dict = {}
@@ -1153,7 +1160,7 @@ def check_point(ctx, case, lk, backend, other, info, trained, pt, descr_ok, add_
                 "implementation": {"in_memory": [shape1, brs1, lay1], "reloaded": [shape2, brs2, lay2]}},
                 {"structure_differs": True})
         return
-    do_coq = ctx.rng.random() < (0.7 if ctx.quick else 0.4)
+    do_coq = (not ctx.quick) or ctx.rng.random() < 0.7       # thorough: every save point; quick: ~70%
     if do_coq:
         for c1, c2, cj in zip(s1.comparisons, s2.comparisons, d1_text["comparisons"]):
             add_terms(1, "comparison_roundtrip", c1, cj, c2, {}, check_wf=False)
